@@ -7,6 +7,13 @@
 //     verifPoint(...) line, a call verifAutoLock(tryLock, unlock) is inserted, so that a
 //     task which would block on a lock the scheduler does not know about parks instead.
 //
+//   - regions whose statement count depends on Go's randomised map iteration order are
+//     bracketed with verifNoYield(+1/-1) - calls into package sort (the number of
+//     comparisons depends on the order of the input, which for map keys is random) and
+//     `for ... range <map>` loops (an early exit is reached after a random number of
+//     iterations) - so that statements executed in there are neither counted nor
+//     pre-empted, and "the n-th statement of this task" is the same in every process.
+//
 // It only ever writes into the scratch directory given on the command line; /repo is
 // never touched. Usage: astyield <dir>
 package main
@@ -15,9 +22,12 @@ import (
 	"bytes"
 	"fmt"
 	"go/ast"
+	"go/build/constraint"
 	"go/format"
+	"go/importer"
 	"go/parser"
 	"go/token"
+	"go/types"
 	"os"
 	"path/filepath"
 	"strings"
@@ -68,19 +78,53 @@ func main() {
 	dir := os.Args[1]
 	files, _ := filepath.Glob(filepath.Join(dir, "*.go"))
 	nYield, nLock := 0, 0
+	fset := token.NewFileSet()
+	type parsed struct {
+		name string
+		f    *ast.File
+	}
+	var todo []parsed
+	var checked []*ast.File
 	for _, fn := range files {
 		base := filepath.Base(fn)
-		if strings.HasSuffix(base, "_test.go") || strings.HasPrefix(base, "verif_") {
+		if strings.HasSuffix(base, "_test.go") || base == "verif_astyield.go" {
 			continue
 		}
-		fset := token.NewFileSet()
 		f, err := parser.ParseFile(fset, fn, nil, parser.ParseComments)
 		if err != nil {
 			fmt.Fprintln(os.Stderr, "astyield: parse:", err)
 			os.Exit(2)
 		}
+		if buildTagsOK(f) {
+			checked = append(checked, f)
+		}
+		if strings.HasPrefix(base, "verif_") {
+			continue
+		}
+		todo = append(todo, parsed{fn, f})
+	}
+	// type information is used for one thing only: telling a range over a map from a
+	// range over anything else. If the tree under test does not type-check here, map
+	// ranges are simply not bracketed (a little less determinism, nothing else).
+	if sf, err := parser.ParseFile(fset, "verif_astyield.go", support, 0); err == nil {
+		checked = append(checked, sf)
+	}
+	info = &types.Info{Types: map[ast.Expr]types.TypeAndValue{}}
+	conf := types.Config{Importer: importer.ForCompiler(fset, "source", nil), Error: func(error) {}}
+	if _, err := conf.Check("pongo2", fset, checked, info); err != nil {
+		fmt.Fprintln(os.Stderr, "astyield: note: type check incomplete:", err)
+	}
+	for _, pf := range todo {
+		fn, f := pf.name, pf.f
 		// comments would be misplaced by the insertions and are not needed in the copy
-		f.Comments = nil
+		// (build constraints are kept: they sit above the package clause)
+		var keep []*ast.CommentGroup
+		for _, cg := range f.Comments {
+			if cg.End() < f.Package && strings.Contains(cg.Text(), "go:build") || (cg.End() < f.Package && hasBuildLine(cg)) {
+				keep = append(keep, cg)
+			}
+		}
+		f.Comments = keep
 		ast.Inspect(f, func(n ast.Node) bool {
 			switch x := n.(type) {
 			case *ast.FuncDecl:
@@ -135,7 +179,129 @@ func main() {
 		fmt.Fprintln(os.Stderr, "astyield:", err)
 		os.Exit(2)
 	}
-	fmt.Printf("astyield: %d yield points, %d lock announcements in %s\n", nYield, nLock, dir)
+	fmt.Printf("astyield: %d yield points, %d lock announcements, %d sort calls and %d map ranges bracketed in %s\n", nYield, nLock, nSort, nMapRange, dir)
+}
+
+var info *types.Info
+var nSort, nMapRange int
+
+func hasBuildLine(cg *ast.CommentGroup) bool {
+	for _, c := range cg.List {
+		if constraint.IsGoBuild(c.Text) || constraint.IsPlusBuild(c.Text) {
+			return true
+		}
+	}
+	return false
+}
+
+// buildTagsOK evaluates the file's //go:build line for the build the simulator uses.
+func buildTagsOK(f *ast.File) bool {
+	for _, cg := range f.Comments {
+		if cg.Pos() > f.Package {
+			break
+		}
+		for _, c := range cg.List {
+			if !constraint.IsGoBuild(c.Text) {
+				continue
+			}
+			x, err := constraint.Parse(c.Text)
+			if err != nil {
+				return true
+			}
+			return x.Eval(func(tag string) bool {
+				switch tag {
+				case "verif", "instr", "linux", "amd64", "gc", "unix":
+					return true
+				}
+				return strings.HasPrefix(tag, "go1.")
+			})
+		}
+	}
+	return true
+}
+
+// callsPackage reports whether statement s is (or assigns the result of) a call pkg.F(...).
+func callsPackage(s ast.Stmt, pkg string) bool {
+	var x ast.Expr
+	switch t := s.(type) {
+	case *ast.ExprStmt:
+		x = t.X
+	case *ast.AssignStmt:
+		if len(t.Rhs) == 1 {
+			x = t.Rhs[0]
+		}
+	}
+	ce, ok := x.(*ast.CallExpr)
+	if !ok {
+		return false
+	}
+	sel, ok := ce.Fun.(*ast.SelectorExpr)
+	if !ok {
+		return false
+	}
+	id, ok := sel.X.(*ast.Ident)
+	return ok && id.Name == pkg && id.Obj == nil
+}
+
+// mapRange recognises `for ... := range m` with m of map type whose body can be left
+// only by falling out of the loop, by an unlabelled break, or by return.
+func mapRange(s ast.Stmt) (*ast.RangeStmt, bool) {
+	rs, ok := s.(*ast.RangeStmt)
+	if !ok || info == nil {
+		return nil, false
+	}
+	t := info.TypeOf(rs.X)
+	if t == nil {
+		return nil, false
+	}
+	if _, isMap := t.Underlying().(*types.Map); !isMap {
+		return nil, false
+	}
+	simple := true
+	ast.Inspect(rs.Body, func(n ast.Node) bool {
+		switch x := n.(type) {
+		case *ast.FuncLit:
+			return false
+		case *ast.BranchStmt:
+			if x.Label != nil || x.Tok == token.GOTO {
+				simple = false
+			}
+		}
+		return true
+	})
+	return rs, simple
+}
+
+func minusOne() ast.Stmt {
+	return call("verifNoYield", &ast.UnaryExpr{Op: token.SUB, X: &ast.BasicLit{Kind: token.INT, Value: "1"}})
+}
+
+// beforeReturns inserts verifNoYield(-1) in front of every return statement below n
+// (function literals excepted).
+func beforeReturns(n ast.Node) {
+	fix := func(list []ast.Stmt) []ast.Stmt {
+		var out []ast.Stmt
+		for _, s := range list {
+			if _, ok := s.(*ast.ReturnStmt); ok {
+				out = append(out, minusOne())
+			}
+			out = append(out, s)
+		}
+		return out
+	}
+	ast.Inspect(n, func(n ast.Node) bool {
+		switch x := n.(type) {
+		case *ast.FuncLit:
+			return false
+		case *ast.BlockStmt:
+			x.List = fix(x.List)
+		case *ast.CaseClause:
+			x.Body = fix(x.Body)
+		case *ast.CommClause:
+			x.Body = fix(x.Body)
+		}
+		return true
+	})
 }
 
 var generated = map[*ast.BlockStmt]bool{}
@@ -232,6 +398,19 @@ func instrument(list []ast.Stmt, nYield, nLock *int) []ast.Stmt {
 		}
 		if isCallTo(s, "verifPoint") || isCallTo(s, "verifNoYield") {
 			out = append(out, s)
+			continue
+		}
+		if callsPackage(s, "sort") {
+			out = append(out, call("verifYieldPoint"), call("verifNoYield", &ast.BasicLit{Kind: token.INT, Value: "1"}), s, minusOne())
+			*nYield++
+			nSort++
+			continue
+		}
+		if rs, ok := mapRange(s); ok {
+			beforeReturns(rs.Body)
+			out = append(out, call("verifYieldPoint"), call("verifNoYield", &ast.BasicLit{Kind: token.INT, Value: "1"}), s, minusOne())
+			*nYield++
+			nMapRange++
 			continue
 		}
 		if isDoCall(s) {
